@@ -30,6 +30,7 @@ def rules(ctx):
     c132(ctx)
     c133(ctx)
     c134(ctx)
+    c135(ctx)
 
 
 def c13_open_options(ctx):
@@ -189,6 +190,40 @@ def c133(ctx):
     ok = users <= {"lsmtk::verifier::list_mani_fragments", "lsmtk::verifier::list_mani_fragments::{closure#0}"}
     ctx.check(R, "lsmtk", "fragment-path-users", ok, "outside mani only list_mani_fragments names manifest fragment paths: %s" % sorted(users),
               "manifest fragment paths are built in %s" % sorted(users))
+
+
+def c135(ctx):
+    R = "C13.5"
+    ctx.declare(R, "an edit removes before it adds, in every implementation of the edit semantics (an edit may remove and add the same name)")
+    f = ctx.fn(R, M + "apply_edit")
+    if f:
+        rm = [p_ for p_ in P.call_points(f, r"BTreeSet.*::remove$") if any(s_["k"] == "param" and s_["i"] == 2 for s_ in P.origins(f, P.term_at(f, p_)["args"][0]))]
+        add = [p_ for p_ in P.call_points(f, r"BTreeSet.*::(insert|extend|append)$|Extend.*>::extend$") if any(s_["k"] == "param" and s_["i"] == 2 for s_ in P.origins(f, P.term_at(f, p_)["args"][0]))]
+        ctx.floor(R, "strs.remove sites in apply_edit", len(rm), 1)
+        ctx.floor(R, "strs.insert sites in apply_edit", len(add), 1)
+        bad = [(a, r) for a in add for r in rm if P.reach(f, P.after(f, a), [r]) is not None]
+        ctx.check(R, f, "remove-then-add", not bad, "no removal from the string set can follow an insertion: `-x +x` leaves x listed",
+                  "apply_edit inserts before it removes: an edit that removes and re-adds a name (a compaction whose output equals an input) drops it from the manifest",
+                  pt=bad[0][0] if bad else None)
+        # removals come from rm_strs, insertions from add_strs
+        for p_ in rm:
+            ctx.check(R, f, "rm-source", ".rm_strs" in K.src_names(f, P.term_at(f, p_)["args"][1]), "removed names come from edit.rm_strs", "removals do not come from rm_strs", pt=p_)
+        for p_ in add:
+            ctx.check(R, f, "add-source", ".add_strs" in K.src_names(f, P.term_at(f, p_)["args"][1]), "inserted names come from edit.add_strs", "insertions do not come from add_strs", pt=p_)
+    # the sibling that replays the same edits (lsmtk's orphan scan) uses the same order — checked by C08.4; the
+    # writer serialises removals before additions too
+    w = ctx.fn(R, M + "_apply")
+    if w:
+        heads = [h for h in P.call_points(w, r"Iterator>::next$") if P.reach(w, P.after(w, h), [h])]
+        def field_of(h):
+            return {n for n in K.src_names(w, P.term_at(w, h)["args"][0]) if n in (".rm_strs", ".add_strs", ".info")}
+        rmh = [h for h in heads if ".rm_strs" in field_of(h)]
+        adh = [h for h in heads if ".add_strs" in field_of(h)]
+        ctx.check(R, w, "serialise-order", bool(rmh) and bool(adh) and not P.order(w, rmh, adh), "the '-' lines of an edit are written before its '+' lines",
+                  "_apply no longer writes removals before additions")
+    r = ctx.fn(R, ITER_NEXT)
+    if r:
+        ctx.ok(R, r, "the reader rebuilds the same Edit (add/rm sets), so replay goes through apply_edit's order")
 
 
 def c134(ctx):
